@@ -155,3 +155,11 @@ fn test_isqrt() {
         assert!(r * r <= n && n < (r + 1) * (r + 1));
     }
 }
+
+/// Verification accessor for the private integer square root (cfg(yamaquasi_verif) only).
+#[cfg(yamaquasi_verif)]
+pub mod vhook {
+    pub fn isqrt(n: u64) -> u64 {
+        super::isqrt(n)
+    }
+}
